@@ -53,6 +53,34 @@ class HarnessError(Exception):
     pass
 
 
+class Hang(BaseException):
+    """Raised by the CPU-time watchdog (BaseException so that `except Exception` inside
+    the library cannot swallow it)."""
+
+
+CASE_CPU_LIMIT = float(os.environ.get("VERIF_CASE_CPU_LIMIT", "60"))
+
+
+def cpu_limited(thunk, secs=None):
+    """Run thunk() under a limit of *CPU* seconds of this process (ITIMER_VIRTUAL: machine
+    load does not count, so a loaded machine cannot cause a spurious trip)."""
+    import signal
+    secs = CASE_CPU_LIMIT if secs is None else secs
+
+    def handler(sig, frm):
+        raise Hang()
+    try:
+        old = signal.signal(signal.SIGVTALRM, handler)
+    except ValueError:          # not in the main thread
+        return thunk()
+    signal.setitimer(signal.ITIMER_VIRTUAL, secs)
+    try:
+        return thunk()
+    finally:
+        signal.setitimer(signal.ITIMER_VIRTUAL, 0)
+        signal.signal(signal.SIGVTALRM, old)
+
+
 def _jsonable(x):
     if isinstance(x, dict):
         return {str(k): _jsonable(v) for k, v in x.items()}
@@ -174,9 +202,12 @@ class Rec(object):
     def run_body(self, clause, case):
         body = self.module.CLAUSES[clause]
         try:
-            info = body(case)
+            info = cpu_limited(lambda: body(case))
         except Violation as v:
             return None, v
+        except Hang:
+            return None, Violation("the case did not finish within %.0f s of CPU time (endless "
+                                   "loop in the library?)" % CASE_CPU_LIMIT, site=clause, kind="hang")
         except Exception as e:
             if type(e).__module__.startswith("hypothesis"):
                 raise
@@ -240,6 +271,11 @@ class Rec(object):
         from hypothesis import given, settings, HealthCheck, Phase
 
         rec = self
+        if len(self.violations) >= 3:
+            # enough distinct failures in this task: later campaigns of the task are
+            # skipped so that a tree that is broken everywhere still reports quickly
+            self.inconclusive.append("skipped %s shard %s after 3 violations in this task" % (clause, shard))
+            return False
         phases = [Phase.explicit, Phase.generate]
         if shrink:
             phases.append(Phase.shrink)
@@ -253,6 +289,8 @@ class Rec(object):
                                          HealthCheck.data_too_large])
         @given(strategy)
         def run(case):
+            if state.get("abort"):
+                return          # a hang was seen: do not shrink (every attempt costs the limit)
             info, v = rec.run_body(clause, case)
             if v is None:
                 rec.account(clause, case, info)
@@ -268,11 +306,15 @@ class Rec(object):
                 return
             rec.evals += 1
             state["last"] = (case, v)
+            if v.kind == "hang":
+                state["abort"] = True
             raise v
 
         try:
             run()
-        except Violation:
+        except BaseException as exc:
+            if not (isinstance(exc, Violation) or state.get("abort")):
+                raise
             case, v = state["last"]
             self.violations.append({"clause": clause, "case": _jsonable(case),
                                     "violation": v.to_json()})
